@@ -71,14 +71,35 @@ Theorem C02_refused_never_delivers : forall lim filt h ch off ep reject meta rac
 Proof. exact stream_refused_never_delivers. Qed.
 Print Assumptions C02_refused_never_delivers.
 
+Definition p2 := mkPopts 2 60000 0 0 0 0 0.
+Definition h2 := fst (MemStream.run (hub_init 700 0) [Publish 0 1 p2; Publish 0 2 p2; Publish 0 3 p2]).
+
+(* Server-side Client.Subscribe with RecoverSince: the Subscribe push announces
+   the requested offset exactly when the recovery succeeded and the top
+   otherwise - and, by the type of the push, never carries the recovered
+   publications. *)
+Theorem C02_serverside_decision : forall lim filt h ch s off ep meta,
+  h_streams h ch = Some s -> wf_stream s -> off < U64 - 1 ->
+  snd (srv_stream lim filt h ch off ep meta) =
+  if stream_cond s lim off ep then PSub off (s_epoch s) else PSub (s_top s) (s_epoch s).
+Proof. exact srv_stream_decision. Qed.
+Print Assumptions C02_serverside_decision.
+
+(* ... so the property fails for server-side recovery whenever publications
+   exist after the requested offset (finding key serverside-recover-since):
+   the recovery succeeds (the client-side reply would carry offsets 2 and 3),
+   the push announces offset 1 and nothing else *)
+Theorem C02_serverside_lost_refuted :
+  snd (sub_stream 0 (fun _ => false) h2 0 1 1 false 0 []) = ROk true [mkItem 2 2; mkItem 3 3] 1 1 /\
+  snd (srv_stream 0 (fun _ => false) h2 0 1 1 0) = PSub 1 1.
+Proof. vm_compute. split; reflexivity. Qed.
+
 Theorem C02_oracle_sound : forall lim off ep reject fl extra full res,
   stream_ok lim off ep reject fl extra full res = true <-> StreamProp lim off ep reject fl extra full res.
 Proof. exact stream_ok_sound. Qed.
 Print Assumptions C02_oracle_sound.
 
 (* non-vacuity: size-2 stream after 3 publications (offset 1 trimmed) *)
-Definition p2 := mkPopts 2 60000 0 0 0 0 0.
-Definition h2 := fst (MemStream.run (hub_init 700 0) [Publish 0 1 p2; Publish 0 2 p2; Publish 0 3 p2]).
 Definition nofilt : N -> bool := fun _ => false.
 Example C02_examples :
   snd (sub_stream 0 nofilt h2 0 1 1 false 0 []) = ROk true [mkItem 2 2; mkItem 3 3] 1 1 /\
